@@ -235,10 +235,12 @@ def workload(ctx, lentil):
                     wc = lentil.Wavefront(wl) * qq
                     P2 = float(np.sum(np.abs(wc.field) ** 2))
                     c = lentil.propagate_dft(wc, du, shape=24, oversample=1).intensity
-                ctx.close('power', np.array([P2]), np.array([P0]), 2 * TOL, 'rescale|twice|power',
-                          'transmitted power is not preserved by two successive rescales', dict(desc, s2=s2), scale=P0)
-                ctx.close('image', c, a, 2 * TOL, 'rescale|twice|image', 'propagated image is not preserved by two successive rescales',
-                          dict(desc, s2=s2), scale=float(a.max()))
+                if s >= 0.9 and s * s2 >= 0.9:
+                    # (a plane that was first down-sampled has lost detail for good: only the bookkeeping is checked then)
+                    ctx.close('power', np.array([P2]), np.array([P0]), 2 * TOL, 'rescale|twice|power',
+                              'transmitted power is not preserved by two successive rescales', dict(desc, s2=s2), scale=P0)
+                    ctx.close('image', c, a, 2 * TOL, 'rescale|twice|image', 'propagated image is not preserved by two successive rescales',
+                              dict(desc, s2=s2), scale=float(a.max()))
             except Exception as e:
                 ctx.check(False, 'image', f'rescale|twice|raises={type(e).__name__}',
                           f'rescaling an already rescaled plane raised {type(e).__name__}: {e}', desc)
